@@ -54,7 +54,8 @@ def dom_line(d):
 def smp_line(s):
     k = s["k"]
     if k == "leaf":
-        return f"L {s['kind']} {dom_line(s['d'])} {'none' if s['n'] is None else s['n']} {1 if s['filt'] else 0}"
+        kind = "u" if s["kind"] in ("at", "ar") else s["kind"]   # an adaptive sampler hands out rows of its inner uniform sampler
+        return f"L {kind} {dom_line(s['d'])} {'none' if s['n'] is None else s['n']} {1 if s['filt'] else 0}"
     if k == "data":
         return f"D {s['v']} {s['id']} {s['m']}"
     if k in ("*", "+", "&"):
@@ -151,8 +152,12 @@ def build_smp(tp, torch, s):
         filt = None
         if s["filt"]:
             v = first_prim(s["d"])["v"]
-            filt = eval(f"lambda {v}: ({v}[:, :1]*4 - torch.floor({v}[:, :1]*4)) < 0.75", {"torch": torch})
+            filt = eval(f"lambda {v}: ({v}[:, :1]*4 - torch.floor({v}[:, :1]*4)) < {s.get('fp', 0.75)!r}", {"torch": torch})
         kind, n = s["kind"], s["n"]      # n = None: neither n_points nor a density (malformed stream)
+        if kind == "at":
+            return tp.samplers.AdaptiveThresholdRejectionSampler(dom, 0.4, n_points=n, filter_fn=filt)
+        if kind == "ar":
+            return tp.samplers.AdaptiveRandomRejectionSampler(dom, n_points=n, filter_fn=filt)
         if kind == "u":
             return tp.samplers.RandomUniformSampler(dom, n_points=n, filter_fn=filt)
         if kind == "g":
@@ -160,11 +165,14 @@ def build_smp(tp, torch, s):
         if kind == "n":
             p = first_prim(s["d"])
             c = p["base"] + p["off"] + p["len"] / 2.0
-            return tp.samplers.GaussianSampler(dom, n, mean=[c] if p["k"] == "I" else [c, 0.0], std=p["len"])
+            mean = [c] if p["k"] == "I" else [c, 0.0]
+            form = s.get("mean_form", "list")
+            mean = c if (form == "number" and p["k"] == "I") else (torch.tensor(mean) if form == "tensor" else mean)
+            return tp.samplers.GaussianSampler(dom, n, mean=mean, std=p["len"])
         if kind == "l":
             return tp.samplers.LHSSampler(dom, n)
         if kind == "e":
-            return tp.samplers.ExponentialIntervalSampler(dom, n, 2.0)
+            return tp.samplers.ExponentialIntervalSampler(dom, n, s.get("ex", 2.0))
         raise ValueError(kind)
     if k == "data":
         dt = torch.float64 if s.get("dt") == "float64" else torch.float32
@@ -381,6 +389,10 @@ def decode(case, out_vars, dims, tensor, params_rows):
                 own, moves, rel = cell_verdict(node, vals[v], pre_env(node, env))
                 if own:
                     txt = cell_text(v, lf, node, True, moves, rel)
+                    if lf["filt"] and first_prim(node)["v"] == first_prim(lf["d"])["v"]:
+                        fr = vals[v][0] * 4 - math.floor(vals[v][0] * 4)
+                        if not fr < lf.get("fp", 0.75) + 1e-6:
+                            txt += ":rejected-by-filter"
                     break
             if txt is None:
                 if cands and cands[0][0] == "leaf":
@@ -428,7 +440,10 @@ def cell_text(v, lf, node, own, moves, rel):
     if own and j_observable(lf) and rel is not None:
         n = lf["n"]
         u = min(max(rel / p["len"], 0.0), 1.0)
-        g = math.sqrt(u) if lf["kind"] == "e" else u
+        if lf["kind"] == "e":   # exponent 2: points = x**2 ; exponent 1/2: points = 1 - x**2
+            g = math.sqrt(u) if lf.get("ex", 2.0) > 1 else math.sqrt(max(0.0, 1.0 - u))
+        else:
+            g = u
         jf = g * (n + 1) - 1
         j = str(round(jf)) if abs(jf - round(jf)) < 0.3 else "?"
     flag = "own" if own else "other"
@@ -476,7 +491,11 @@ def static_intervals(s):
 def n_calls(case):
     """length of the call history: 2 calls, or 3r+1 when a static node resamples every r calls"""
     rs = [r for r in static_intervals(case["s"]) if r]
-    return max([2] + [3 * r + 1 for r in rs])
+    return max([4 if is_adaptive(case) else 2] + [3 * r + 1 for r in rs])
+
+
+def is_adaptive(case):
+    return case["s"]["k"] == "leaf" and case["s"]["kind"] in ("at", "ar")
 
 
 def run_impl(case):
@@ -497,7 +516,12 @@ def run_impl(case):
                 res["len_before"] = f"raises {type(e).__name__}"
             for c in range(n_calls(case)):
                 res["failed_call"] = c + 1
-                pts_all.append(smp.sample_points(params))
+                if is_adaptive(case):
+                    # driven like a condition does: the (non-monotone) loss of the previous points, from call 2 on
+                    loss = None if c == 0 else torch.rand(len(pts_all[-1]))
+                    pts_all.append(smp.sample_points(loss, params=params))
+                else:
+                    pts_all.append(smp.sample_points(params))
                 res["lens"].append(int(len(smp)))
             res.pop("failed_call")
         if so.getvalue().strip():
@@ -541,6 +565,8 @@ def oracles(case, res):
     if want is None:
         return fails  # append of unequal samples is outside the contract (the code raises)
     if "error" in res:
+        if "could not find a single" in res["error"]:
+            return fails    # documented outcome of a filter that accepted nothing in 20 rounds
         return [f"sample_points with {case['k']} parameter rows failed: {res['error']}"]
     per_param = slen(s)
     exp_vars = svars(s) + (case["pvars"] if k else [])
@@ -570,6 +596,10 @@ def oracles(case, res):
                                  + (f" (rows {i}*{per_param}..)" if i is not None else ""))
                     break
                 cells = cells[:-1]
+            rej = [c for c in cells if c.endswith(":rejected-by-filter")]
+            if rej:
+                fails.append(f"{tag}row {r}: point {rej[0]} does not pass the filter_fn of its sampler")
+                break
             chg = [c for c in cells if c.endswith(":changed")]
             if chg:
                 fails.append(f"{tag}row {r}: stored datum {chg[0]} of the data sampler was changed")
@@ -693,7 +723,14 @@ class Gen:
         n = n or rng.choice([1, 1, 2, 2, 3, 4, 5, 6, 9, 17])
         if filt:
             n = min(n, 6)
-        return dict(k="leaf", kind=kind, d=d, n=n, filt=filt)
+        lf = dict(k="leaf", kind=kind, d=d, n=n, filt=filt)
+        if kind == "e" and rng.random() < 0.5:
+            lf["ex"] = 0.5
+        if kind == "n":
+            lf["mean_form"] = rng.choice(["list", "number", "tensor"])
+        if filt and rng.random() < 0.3:
+            lf["fp"] = 0.3
+        return lf
 
     def maybe_static(self, node, p=0.15):
         """static nodes (also with a finite resample interval) at every position of the expression"""
@@ -829,6 +866,41 @@ def gen_case(rng, idx):
     return dict(kind="sample", k=k, pvars=pvars, pvals=pvals, pdtype=pdtype, s=s, tseed=rng.randint(0, 10 ** 6))
 
 
+def gen_special(rng):
+    """the least exercised corners: adaptive rejection samplers (driven with losses), very selective filters
+    (hundreds of rejection rounds), grid fill-up under a selective filter"""
+    g = Gen(rng)
+    what = rng.choice(["adaptive", "adaptive", "adaptive-filter", "low-acceptance", "low-acceptance", "grid-fill-up"])
+    k = rng.choice([0, 1, 2, 2, 3, 5])
+    pvars = [] if k == 0 else rng.choice([["t"], ["t", "D"], ["D"]])
+    vpool = list(SAMPLED)
+    rng.shuffle(vpool)
+    if what.startswith("adaptive"):
+        lf = dict(k="leaf", kind=rng.choice(["at", "ar"]), d=g.dom(vpool[0], {w: True for w in pvars}, kind="u"),
+                  n=rng.choice([1, 2, 3, 5, 6, 9]), filt=False)
+        if what == "adaptive-filter" and first_prim(lf["d"])["k"] == "I" and not has_bd(lf["d"]):
+            lf["filt"] = True
+            lf["n"] = min(lf["n"], 6)
+    else:
+        kind = "g" if what == "grid-fill-up" else rng.choice(["u", "u", "at"])
+        fp = rng.choice([0.02, 0.004])
+        n = rng.choice([20, 60]) if fp == 0.02 else rng.choice([100, 250])
+        if kind == "g":
+            n = min(n, 60)
+        k = rng.choice([0, 1, 2]) if n * 2 <= 400 else rng.choice([0, 1])
+        pvars = [] if k == 0 else ["t"]
+        d = simple_leaf(g, vpool[0], "u", (), n)["d"]     # parameter-free: small magnitudes, the filter band is resolved
+        d["base"] = float(4 * rng.randint(0, 5))
+        lf = dict(k="leaf", kind=kind, d=d, n=n, filt=True, fp=fp)
+    pvals, pdtype = [], "float32"
+    if k:
+        pdtype = rng.choice(["float32", "float64"])
+        frac = 0.1 if pdtype == "float64" else 0.0
+        cols = [rng.sample(range(1, 9), k) for _ in pvars]
+        pvals = [[float(c[i]) + frac for c in cols] for i in range(k)]
+    return dict(kind="sample", special=what, k=k, pvars=pvars, pvals=pvals, pdtype=pdtype, s=lf, tseed=rng.randint(0, 10 ** 6))
+
+
 def total_rows(case):
     return slen(case["s"]) * max(1, case["k"])
 
@@ -836,14 +908,19 @@ def total_rows(case):
 def gen_cases(ctx):
     rng = ctx.rng
     cases, i = [], 0
-    want = ctx.scale(1000, 10000)
+    want = ctx.scale(700, 7000)
     while len(cases) < want:
         i += 1
         c = gen_case(rng, i)
         if c is None or total_rows(c) > 400:
             continue
         cases.append(c)
-    return cases + finding_probes(rng)
+    special = []
+    while len(special) < ctx.scale(70, 700):
+        c = gen_special(rng)
+        if total_rows(c) <= 520:
+            special.append(c)
+    return cases + special + finding_probes(rng)
 
 
 # ------------------------------------------------------------------------------------------
@@ -920,6 +997,137 @@ def judge_malformed(rep, case, res, reply):
                      dict(case=case, text=case["what"] + ": " + describe(case)), impl + " " + res.get("error", ""), reply[:300])
 
 
+
+# ------------------------------------------------------------------------------------------
+# small public-API corners of the anchored files that are no sampler expressions: EmptySampler, iteration protocol,
+# set_length / len of density samplers, DataSampler from a Points object and with extra batch axes.
+# Oracle only (direct evaluation of the property's statements), no model.
+
+def api_check(name, seed):
+    tp = common.use_repo()
+    import torch
+    import random as _random
+    rng = _random.Random(f"api:{name}:{seed}")
+    torch.manual_seed(rng.randint(0, 10 ** 6))
+    S, D, sp = tp.samplers, tp.domains, tp.spaces
+    Points = sp.Points
+    X, T, U = sp.R1("x"), sp.R1("t"), sp.R1("u")
+    n, k = rng.choice([1, 2, 3, 5]), rng.choice([1, 2, 3])
+    tvals = [float(v) + 0.1 for v in rng.sample(range(1, 9), k)]
+    P = Points(torch.tensor(tvals, dtype=torch.float64).reshape(-1, 1), T)
+    tag = D.Interval(X, lambda t: 1024.0 * t, lambda t: 1024.0 * t + 1)
+    fails = []
+
+    def rows_ok(p, per, what, params=P, own=True):
+        t = p.as_tensor
+        kk = len(params)
+        if t.dim() != 2 or t.shape[0] != per * max(1, kk):
+            fails.append(f"{what}: shape {tuple(t.shape)}, expected {per * max(1, kk)} rows")
+            return
+        if kk:
+            want = torch.repeat_interleave(params.as_tensor, per, dim=0)
+            if t.dtype != want.dtype or not torch.equal(t[:, -want.shape[1]:], want):
+                fails.append(f"{what}: rows i*{per}..(i+1)*{per}-1 do not carry parameter row i unchanged")
+            elif own and not bool(((t[:, 0] >= 1024.0 * t[:, -1] - 0.05) & (t[:, 0] <= 1024.0 * t[:, -1] + 1.05)).all()):
+                fails.append(f"{what}: a point was not made for the parameter row it is joined with")
+
+    if name == "empty":
+        e = S.PointSampler.empty()
+        if len(e) != 0 or not e.sample_points().isempty or not e.sample_points(P).isempty:
+            fails.append("PointSampler.empty(): len != 0 or a non-empty sample")
+        a = S.RandomUniformSampler(tag, n)
+        for smp, what in ((a + e, "a + empty"), (e + a, "empty + a")):
+            if len(smp) != n:
+                fails.append(f"len({what}) = {len(smp)}, a has {n} points")
+            for _ in range(2):
+                rows_ok(smp.sample_points(P), n, what)
+    elif name == "iteration":
+        a = S.GridSampler(D.Interval(X, 0, 1), n)
+        it = iter(a)
+        for _ in range(2):
+            p = next(it)
+            if len(p) != n or len(a) != n:
+                fails.append(f"next(iter(sampler)) returned {len(p)} rows, len(sampler) = {len(a)}, n = {n}")
+        st = (S.RandomUniformSampler(D.Interval(X, 0, 1), n) * S.GridSampler(D.Interval(U, 0, 1), 2)).make_static()
+        p1, p2 = next(st), next(st)
+        if len(p1) != 2 * n or not torch.equal(p1.as_tensor, p2.as_tensor) or len(st) != 2 * n:
+            fails.append(f"next(static product): {len(p1)} rows / different points / len = {len(st)}, expected {2 * n}")
+    elif name == "density-len":
+        d = rng.choice([3.7, 10.0])
+        for cls in (S.RandomUniformSampler, S.GridSampler):
+            a = cls(D.Interval(X, 0, 2), density=d)
+            try:
+                len(a)
+                fails.append(f"{cls.__name__}(density): len known before the first call")
+            except ValueError:
+                pass
+            p = a.sample_points()
+            if len(a) != len(p):
+                fails.append(f"{cls.__name__}(density={d}): len(sampler) = {len(a)} after a parameter-free call that returned {len(p)} rows")
+            per = len(p)
+            rows_ok(a.sample_points(P), per, f"{cls.__name__}(density={d}) with {k} parameter rows", own=False)
+            b = cls(tag, density=d)        # parameter-dependent domain: one loop pass per row
+            q = b.sample_points(P)
+            if len(q) % k != 0:
+                fails.append(f"{cls.__name__}(density) on a parameter-dependent domain: {len(q)} rows for {k} rows of equal volume")
+            else:
+                rows_ok(q, len(q) // k, f"{cls.__name__}(density={d}) on a parameter-dependent domain")
+        a = S.RandomUniformSampler(D.Interval(X, 0, 2), density=d)
+        a.set_length(17)
+        if len(a) != 17:
+            fails.append("set_length(17) is not reported by len(sampler)")
+    elif name == "data-points-object":
+        m = rng.choice([1, 2, 4])
+        vals = torch.arange(m, dtype=torch.float64).reshape(-1, 1) + 0.1
+        for src in (Points(vals.clone(), U), {"u": vals.clone()}):
+            ds = S.DataSampler(src)
+            if len(ds) != m or not torch.equal(ds.sample_points().as_tensor, vals):
+                fails.append("DataSampler: len or the stored points differ from the given data")
+            p = ds.sample_points(P)
+            t = p.as_tensor
+            if list(p.space.keys()) != ["u", "t"] or t.shape != (m * k, 2) or t.dtype != torch.float64:
+                fails.append(f"DataSampler with parameters: space {list(p.space.keys())} shape {tuple(t.shape)} dtype {t.dtype}")
+            elif not torch.equal(t[:, :1], vals.repeat(k, 1)) or not torch.equal(t[:, 1:], torch.repeat_interleave(P.as_tensor, m, dim=0)):
+                fails.append("DataSampler with parameters: row i*m+j does not carry datum j and parameter row i unchanged")
+    elif name == "data-extra-axis":
+        m, qn = rng.choice([1, 2, 3]), rng.choice([2, 3])
+        pdim = rng.choice([1, 2])
+        vals = torch.arange(m * qn, dtype=torch.float32).reshape(m, qn, 1) + 0.5
+        PP = Points(torch.tensor([[float(i + 1) + 10 * c for c in range(pdim)] for i in range(k)]), sp.Rn("t", pdim))
+        ds = S.DataSampler({"u": vals})
+        t = ds.sample_points(PP).as_tensor
+        if tuple(t.shape) != (m * k, qn, 1 + pdim):
+            fails.append(f"DataSampler with an extra batch axis ({m},{qn},1) and {k} parameter rows of dim {pdim}: shape {tuple(t.shape)}")
+        else:
+            for i in range(k):
+                blk = t[i * m:(i + 1) * m]
+                if not torch.equal(blk[..., :1], vals) or not bool((blk[..., 1:] == PP.as_tensor[i]).all()):
+                    fails.append(f"DataSampler with an extra batch axis: block {i} does not carry the data and parameter row {i}")
+                    break
+    else:
+        raise ValueError(name)
+    return fails
+
+
+API_CHECKS = ["empty", "iteration", "density-len", "data-points-object", "data-extra-axis"]
+
+
+def run_api(ctx, rep, only=None):
+    for name in API_CHECKS:
+        for rnd in range(ctx.scale(4, 40)):
+            case = dict(kind="api", name=name, seed=f"{ctx.seed}:{rnd}")
+            if only is not None and (only["name"], only["seed"]) != (name, case["seed"]):
+                continue
+            rep.count("api:" + name)
+            rep.case(case, False)
+            try:
+                fails = api_check(name, case["seed"])
+            except Exception as e:  # noqa
+                fails = [f"raised {type(e).__name__}: {str(e)[:160]}"]
+            for f in fails:
+                rep.fail(f"{name}: {f}", dict(case=case, text=f"api check {name} seed {case['seed']}"))
+
+
 def describe(case):
     def ds(d):
         if d["k"] in ("I", "C"):
@@ -930,7 +1138,7 @@ def describe(case):
 
     def ss(s):
         if s["k"] == "leaf":
-            return f"{s['kind']}{'f' if s['filt'] else ''}({ds(s['d'])},{s['n']})"
+            return f"{s['kind']}{('f' + (str(s['fp']) if 'fp' in s else '')) if s['filt'] else ''}({ds(s['d'])},{s['n']})"
         if s["k"] == "data":
             return f"data{'64' if s.get('dt') == 'float64' else ''}({s['v']},{s['m']})"
         if s["k"] == "T":
@@ -942,6 +1150,8 @@ def describe(case):
 def histogram(rep, case):
     s = case["s"]
     rep.count(f"k={case['k']}")
+    if case.get("special"):
+        rep.count("special:" + case["special"])
     if case["k"]:
         rep.count("parameter dtype " + case.get("pdtype", "float32"))
     if any(lf["k"] == "data" and lf.get("dt") == "float64" for lf in leaves_of(s)):
@@ -949,6 +1159,12 @@ def histogram(rep, case):
 
     def walk(x, depth):
         rep.count("node:" + (x["k"] if x["k"] != "leaf" else "leaf-" + x["kind"] + ("+filter" if x["filt"] else "")))
+        if x["k"] == "leaf" and x["kind"] == "e":
+            rep.count(f"exponent {x.get('ex', 2.0)}")
+        if x["k"] == "leaf" and x["kind"] == "n":
+            rep.count("gaussian mean as " + x.get("mean_form", "list"))
+        if x["k"] == "leaf" and x["filt"]:
+            rep.count(f"filter acceptance {x.get('fp', 0.75)}")
         if x["k"] == "leaf":
             rep.count(f"n={x['n']}")
             dwalk(x["d"])
@@ -1103,6 +1319,11 @@ def judge(rep, case, res, reply):
     else:
         model = "err" if reply.startswith("err:") else reply
         rep.count("model-" + reply.split(" ")[0])
+    if "error" in res and "could not find a single" in res["error"]:
+        # the documented give-up of a filter loop (20 rounds without a valid point) = the model's `err:no-valid` for an
+        # oracle that rejects everything; nothing to compare
+        rep.count("filter loop gave up (documented RuntimeError)")
+        return fails
     if "error" in res:
         impls = ["err"]
         rep.count("impl-error")
@@ -1126,6 +1347,7 @@ def run(ctx, rep, cases=None):
     rep.rule = ("seeded sampler expressions (depth <= 3) over tagging domains; a case is non-trivial if it has >= 1 parameter "
                 "row or is a composition, and asks for >= 2 points somewhere; distinct = distinct (expression, n, k) texts")
     if cases is None:
+        run_api(ctx, rep)
         cases = gen_cases(ctx) + [gen_malformed(ctx.rng) for _ in range(ctx.scale(150, 1500))]
     results, failing = [], 0
     for c in cases:
@@ -1171,5 +1393,9 @@ def replay(ctx, obj):
     inp = obj.get("failing_input") or obj.get("first")
     case = inp["input"]["case"]
     lean = common.lean_check("C02")
-    run(ctx, rep, [case])
+    if case.get("kind") == "api":
+        ctx.seed = int(str(case["seed"]).split(":")[0])
+        run_api(ctx, rep, only=case)
+    else:
+        run(ctx, rep, [case])
     return common.finish(ctx, rep, lean)
